@@ -146,7 +146,7 @@ def main(argv=None):
     harness_errors = []
     killed = 0
     exhaustive = None
-    hard = budget * 2 + 120
+    hard = budget + 200  # a worker that neither finishes nor stops at its budget is killed (its part is reported lost)
     for k, op, pr in procs:
         try:
             so, se = pr.communicate(timeout=max(5, hard - (time.time() - t0)))
